@@ -906,7 +906,7 @@ class PolygonalROI(VertexROIBase):
         if not self.defined():
             raise UndefinedROI
         # Do not include starting vertex twice!
-        if self.vx[-1] == self.vx[0] and self.vy[:-1] == self.vy[0]:
+        if self.vx[-1] == self.vx[0] and self.vy[-1] == self.vy[0]:
             return np.mean(self.vx[:-1]), np.mean(self.vy[:-1])
         else:
             return np.mean(self.vx), np.mean(self.vy)
@@ -931,7 +931,7 @@ class PolygonalROI(VertexROIBase):
         # Shoelace formula; in case where the start vertex is not already duplicated
         # at the end, final term added manually to avoid an array copy.
         area_main = np.dot(x_[:-1], y_[1:]) - np.dot(y_[:-1], x_[1:])
-        if not (self.vx[-1] == self.vx[0] and self.vy[:-1] == self.vy[0]):
+        if not (self.vx[-1] == self.vx[0] and self.vy[-1] == self.vy[0]):
             area_main += x_[-1] * y_[0] - y_[-1] * x_[0]
         if signed:
             return 0.5 * area_main
@@ -952,7 +952,7 @@ class PolygonalROI(VertexROIBase):
         else:
             x0, y0 = self.mean()
 
-        if self.vx[-1] == self.vx[0] and self.vy[:-1] == self.vy[0]:
+        if self.vx[-1] == self.vx[0] and self.vy[-1] == self.vy[0]:
             x_ = self.vx[:-1] - x0
             y_ = self.vy[:-1] - y0
         else:
